@@ -1061,8 +1061,13 @@ def o_c20(recs):
     return bad
 
 
+def o_c08_positions(recs):
+    """C08 resolves HEAD@{n} against what `reflog` prints: the printed positions must be 0..n-1"""
+    return [(i, m) for i, m in o_c11(recs) if "positions" in m]
+
+
 ORACLES = {
     "C01": [o_c01], "C02": [o_c02], "C03": [o_c03], "C04": [o_c04], "C05": [o_c05], "C06": [o_c06],
-    "C07": [o_c07], "C08": [o_c08], "C09": [o_c09], "C10": [o_c10], "C11": [o_c11], "C12": [o_c12],
+    "C07": [o_c07], "C08": [o_c08, o_c08_positions], "C09": [o_c09], "C10": [o_c10], "C11": [o_c11], "C12": [o_c12],
     "C13": [o_c13], "C14": [o_c14], "C17": [o_c17], "C18": [o_c18], "C20": [o_c20],
 }
